@@ -159,10 +159,7 @@ def eq10(x, got, exact_float=False):
             return isinstance(got, float) and got != got
         if exact_float:
             return _safe_eq(got, x)
-        try:
-            return _safe_eq(got, refcodec.single(x))
-        except OverflowError:
-            return False
+        return _safe_eq(got, refcodec.single(x))
     if isinstance(x, (datetime.datetime, time.struct_time)):
         us = exact_instant_us(x)
         if us >= 2**32 * 10**6:
